@@ -204,17 +204,20 @@ Qed.
 
 (** the state code a bjobs row stands for *)
 Lemma bj_pair_row : forall r,
-  bj_pair (BjRow r) = [(lf_text (b_id r), lsf_effective (lf_text (b_stat r)) (lf_text (b_reason r)))].
+  bj_pair (BjRow r) = [(lf_text (b_id r), lsf_row_code (lf_text (b_stat r)) (lf_text (b_reason r)))].
 Proof. reflexivity. Qed.
 
-Lemma lsf_effective_spec : forall stat reason,
-  (stat <> s "EXIT" -> lsf_effective stat reason = stat) /\
-  lsf_state (lsf_effective (s "EXIT") reason) =
+Lemma lsf_row_code_spec : forall stat reason,
+  (* the implementation's refinement rule is the manual's *)
+  lsf_effective stat reason = lsf_row_code stat reason /\
+  (stat <> s "EXIT" -> lsf_row_code stat reason = stat) /\
+  lsf_state (lsf_row_code (s "EXIT") reason) =
     (if contains lsf_term_runlimit reason then TIMEDOUT
      else if contains lsf_term_owner reason then CANCELLED
      else FAILED).
 Proof.
-  intros stat reason. split; [apply lsf_effective_other | apply lsf_exit_refinement].
+  intros stat reason.
+  split; [apply lsf_effective_row_code | split; [apply lsf_row_code_other | apply lsf_exit_refinement]].
 Qed.
 
 (* ------------------------------------------------------------------------ *)
